@@ -555,8 +555,29 @@ func cpuSeconds(pid int) float64 {
 // WatchdogSpin is raised when a simulated process burns CPU without reaching
 // a system call for Timeout: an ergo defect (non-termination), not a harness one.
 type WatchdogSpin struct {
-	Proc int
-	Argv []string
+	Proc    int
+	Argv    []string
+	Blocked bool // asleep for the whole period inside open(2): a FIFO or device given as a file
+}
+
+// blockedInOpen: is some thread of the process asleep inside open/openat? Such a
+// call returns at once for every regular file, directory and the harness's own
+// pipes (those are inherited descriptors, never opened); it blocks only on a
+// FIFO or a device. A command that sits there for a whole watchdog period does
+// not terminate.
+func blockedInOpen(pid int) bool {
+	tasks, _ := os.ReadDir(fmt.Sprintf("/proc/%d/task", pid))
+	for _, t := range tasks {
+		b, err := os.ReadFile(fmt.Sprintf("/proc/%d/task/%s/syscall", pid, t.Name()))
+		if err != nil {
+			continue
+		}
+		f := strings.Fields(string(b))
+		if len(f) > 0 && (f[0] == "257" || f[0] == "2") {
+			return true
+		}
+	}
+	return false
 }
 
 // spinCPU: CPU seconds without reaching a visible system call that count as
@@ -578,11 +599,12 @@ func (w *World) watchdog(p *Proc, waits int) {
 		w.Count.Inc("watchdog.extended")
 		return
 	}
+	blocked := cpu < spinCPU && blockedInOpen(pid)
 	p.cmd.Process.Kill()
 	p.cmd.Wait()
 	p.State = psKilled
-	if cpu >= spinCPU {
-		panic(WatchdogSpin{Proc: p.Idx, Argv: p.Spec.Argv})
+	if cpu >= spinCPU || blocked {
+		panic(WatchdogSpin{Proc: p.Idx, Argv: p.Spec.Argv, Blocked: blocked})
 	}
 	harnessf("watchdog: p%d (%v) silent for %v x %d after %.1fs CPU (unmodelled blocking call?)", p.Idx, p.Spec.Argv, w.Timeout, waits+1, cpu)
 }
